@@ -490,7 +490,8 @@ Record acfg : Type := mk_acfg {
   a_pipelining : bool;
   a_lmtp : bool;
   a_reject : bool;
-  a_nrcpt : nat }.
+  a_nrcpt : nat;
+  a_helo : bool }.      (* the peer answers EHLO with 500: SmtpRelayClient._ehlo falls back to _helo *)
 
 Definition attempt_path (a : acfg) : list (string * nat) :=
   let p := a_pipelining a in
@@ -498,6 +499,7 @@ Definition attempt_path (a : acfg) : list (string * nat) :=
   [("_connect"%string, 1%nat)]
   ++ (if a_tls_immediately a then [("_handshake"%string, 1%nat)] else [])
   ++ [("_banner"%string, 1%nat); ("_ehlo"%string, 1%nat)]
+  ++ (if a_helo a then [("_helo"%string, 1%nat)] else [])      (* which stages run depends on earlier replies *)
   ++ (if a_starttls a && negb (a_tls_immediately a)
       then [("_starttls"%string, 2%nat); ("_ehlo"%string, 1%nat)] else [])
   ++ (if a_auth a then [("_authenticate"%string, 1%nat)] else [])
@@ -512,6 +514,7 @@ Definition attempt_path (a : acfg) : list (string * nat) :=
 Definition n_command_stages (a : acfg) : nat :=
   ((if a_tls_immediately a then 1 else 0)
    + 2
+   + (if a_helo a then 1 else 0)
    + (if a_starttls a && negb (a_tls_immediately a) then 2 else 0)
    + (if a_auth a then 1 else 0)
    + 1 + a_nrcpt a + 1)%nat.
@@ -533,7 +536,7 @@ Definition stages_of (tbl : list site) (a : acfg) : list cstage :=
 (* the scopes the attempt model relies on (checked against the generated table in prop/C14.v) *)
 Definition expected_scopes : list (string * texpr) :=
   [("_connect"%string, TConnect); ("_handshake"%string, TCommand); ("_banner"%string, TCommand);
-   ("_ehlo"%string, TCommand); ("_starttls"%string, TCommand); ("_authenticate"%string, TCommand);
+   ("_ehlo"%string, TCommand); ("_helo"%string, TCommand); ("_starttls"%string, TCommand); ("_authenticate"%string, TCommand);
    ("_mailfrom"%string, TCommand); ("_rcptto"%string, TCommand); ("_data"%string, TCommand);
    ("_send_empty_data"%string, TData); ("_rset"%string, TCommand);
    ("_send_message_data"%string, TData); ("_disconnect"%string, TCommand)].
